@@ -30,7 +30,7 @@ type Case struct {
 
 var dirs = []string{"recorded", "added", "removed", "modified", "line-endings-changed", "empty", "added-after-directory-link", "added-named-like-inspection-link"}
 var commands = []string{"true", "create-n", "modify-f", "delete-g", "exit-1", "exit-2", "exit-127", "exit-255", "killed", "missing-executable", "empty-command", "stdout-1MiB"}
-var rulesets = []string{"permissive", "match-last-step", "require-f", "create-n", "malformed", "none", "match-strict"}
+var rulesets = []string{"permissive", "match-last-step", "require-f", "create-n", "malformed", "none", "match-strict", "modify-n"}
 
 func h(content string) string {
 	s := sha256.Sum256([]byte(content))
@@ -114,6 +114,9 @@ func ruleLists(name, prefix string) (mat, prod [][]string) {
 		return [][]string{}, [][]string{} // an inspection that only checks the exit status
 	case "permissive":
 		return [][]string{{"ALLOW", "*"}}, [][]string{{"ALLOW", "*"}}
+	case "modify-n":
+		// a file the command creates is not a modified one
+		return [][]string{{"ALLOW", "*"}}, [][]string{{"MODIFY", p("n")}, {"DISALLOW", p("n")}, {"ALLOW", "*"}}
 	case "match-strict":
 		return [][]string{match, {"DISALLOW", "*"}}, [][]string{match, {"DISALLOW", "*"}}
 	case "match-last-step":
@@ -345,9 +348,14 @@ func enumerate(thorough bool, emit func(Case)) {
 	for _, entry := range []int{0, 1} {
 		for _, dir := range dirs {
 			for n := 0; n <= 2; n++ {
+				menu := commands
+				if n == 2 && !thorough {
+					// quick: pairs of inspections over the commands that differ in kind (one exit status, no volume)
+					menu = []string{"true", "create-n", "modify-f", "delete-g", "exit-1", "killed", "missing-executable", "empty-command"}
+				}
 				rec(n, nil, nil, func(cm, ru []string) {
 					emit(Case{Dir: dir, Commands: cm, Rules: ru, Entry: entry, Steps: "ok"})
-				}, commands, rulesets)
+				}, menu, rulesets)
 			}
 			if thorough {
 				rec(3, nil, nil, func(cm, ru []string) {
@@ -411,7 +419,7 @@ func replay(c *mcx.Ctx, raw json.RawMessage) (string, string) {
 func init() {
 	mcx.Register(&mcx.Driver{
 		ID: "C09", Run: run, Replay: replay,
-		Rule: "full product: final-product directory {as recorded by the last step, one file added, removed, modified, line ending changed only, empty} x 0..2 inspections (thorough: + 3 over a 4-command / 3-rule-list menu) x per inspection a command from a 12-element catalogue (no-op, create / modify / delete a file, exit 1 / 2 / 127 / 255, killed by a signal, missing executable, empty command, 1 MiB of output) x a rule list from {none, permissive, MATCH * WITH PRODUCTS FROM last step + DISALLOW *, REQUIRE, CREATE + DISALLOW, malformed} x {working directory, explicit run directory (rules in their prefix-qualified form)}; " +
+		Rule: "full product: final-product directory {as recorded by the last step, one file added, removed, modified, line ending changed only, empty, one added behind a link to a directory, one added that is named like an inspection's link file} x 0..2 inspections (quick: pairs over 8 of the commands) (thorough: + 3 over a 4-command / 3-rule-list menu) x per inspection one of 8 rule lists (permissive, MATCH against the last step with and without ALLOW *.link, REQUIRE, CREATE, MODIFY, malformed, none) and a command from a 12-element catalogue (no-op, create / modify / delete a file, exit 1 / 2 / 127 / 255, killed by a signal, missing executable, empty command, 1 MiB of output) x a rule list from {none, permissive, MATCH * WITH PRODUCTS FROM last step + DISALLOW *, REQUIRE, CREATE + DISALLOW, malformed} x {working directory, explicit run directory (rules in their prefix-qualified form)}; " +
 			"plus the DSSE wrapper and failing step checks (rule violated, link tampered) over a 3-command / 2-rule-list menu. Real processes; every command appends its index to a log. The reference predicts each command's effect on the directory (incl. the <name>.link files the verifier drops into the working directory), hashes contents itself and evaluates the rules with ref.Rules. non-trivial = at least one inspection and the reference decides. states = cases, transitions = inspections.",
 		Assumptions: []string{"catalogue commands have the stated file-system effects under /bin/sh", "an empty explicit run directory is refused by the entry point (don't-care)", "observations are compared after replacing scratch paths"},
 		BudgetQuick: 150e9,
